@@ -229,7 +229,12 @@ pub fn random<const N: usize, P: Pad>(ctx: &mut Ctx) {
                 if with_faults && ctx.total_reports == reports_at_start && rng.chance(1, 12) {
                     let ks = fault_kinds_for(&op);
                     if !ks.is_empty() {
-                        fault = Some((*rng.pick(ks), 1 + rng.below(3) as u32));
+                        let f = (*rng.pick(ks), 1 + rng.below(3) as u32);
+                        // the dry run of this history step: same operation, no fault, on a fresh
+                        // buffer in the same layout. If that already deviates, no fault is injected.
+                        if !control_exec(&h, &model, &op, ctx, &mon) {
+                            fault = Some(f);
+                        }
                     }
                 }
                 if ctx.attribute.is_some() {
